@@ -40,10 +40,17 @@ theorem want_in {tag : OvTag} {T : IntTy} {e : Int} (h : T.InRange e) :
   have h2 : ¬ e < T.lowest := by have := h.1; omega
   simp [checkedWant, h1, h2]
 
+/-- an evaluation that executes nothing undefined, reaches no internal `unreachable`, and is a
+well-formed instantiation (`.ill` marks programs that do not compile) -/
+def Good {α : Type} (x : Res α) : Prop := x.isDefined = true ∧ ∀ m, x ≠ .ill m
+
+theorem good_ok {α : Type} (a : α) : Good (Res.ok a) := ⟨rfl, fun _ h => by cases h⟩
+
 /-- the outcome the specification prescribes is never undefined for the three checked tags -/
 theorem want_defined {tag : OvTag} (ht : tag = .sat ∨ tag = .thr ∨ tag = .trp) (T : IntTy) (e : Int) :
-    (checkedWant tag T e).isDefined = true := by
-  rcases ht with h | h | h <;> subst h <;> simp only [checkedWant] <;> (repeat' split) <;> rfl
+    Good (checkedWant tag T e) := by
+  rcases ht with h | h | h <;> subst h <;> simp only [checkedWant] <;> (repeat' split) <;>
+    exact ⟨rfl, fun _ h => by cases h⟩
 
 theorem want_not_ill {tag : OvTag} (T : IntTy) (e : Int) (m : String) : checkedWant tag T e ≠ .ill m := by
   cases tag <;> unfold checkedWant <;> (repeat' split) <;> simp
@@ -1192,8 +1199,8 @@ theorem Checked.ne_nat {tag : OvTag} (h : Checked tag) : tag ≠ .nat := by
   rcases h with h | h | h <;> subst h <;> decide
 
 theorem react_defined {tag : OvTag} (h : Checked tag) (pos : Bool) (T : IntTy) :
-    (react tag pos T).isDefined = true := by
-  rcases h with h | h | h <;> subst h <;> rfl
+    Good (react tag pos T) := by
+  rcases h with h | h | h <;> subst h <;> exact ⟨rfl, fun _ h => by cases h⟩
 
 def IsOk {α : Type} (x : Res α) : Prop := ∃ a, x = .ok a
 
@@ -1216,8 +1223,8 @@ theorem checkedBin_defined {path : Path} {tag : OvTag} (ht : Checked tag) {op : 
     (hB : hasBuiltin path op = false)
     (hP : IsOk (isOverflowBin op true x y)) (hN : IsOk (isOverflowBin op false x y))
     (hC : isOverflowBin op true x y = .ok false → isOverflowBin op false x y = .ok false →
-      (cBin op x y).isDefined = true) :
-    (checkedBin path tag op x y).isDefined = true := by
+      Good (cBin op x y)) :
+    Good (checkedBin path tag op x y) := by
   have htag : (tag == OvTag.nat) = false := by simpa using ht.ne_nat
   obtain ⟨p, hp⟩ := hP
   obtain ⟨n, hn⟩ := hN
@@ -1291,8 +1298,8 @@ theorem wrap_ne_zero_right {L R : IntTy} (hR : 1 ≤ R.bits) {r : Int} (hr : R.I
     exact emod_ne_zero_of_small (by omega) (by omega) h0
 
 
-theorem isOk_defined {α : Type} {x : Res α} (h : IsOk x) : x.isDefined = true := by
-  obtain ⟨a, rfl⟩ := h; rfl
+theorem isOk_defined {α : Type} {x : Res α} (h : IsOk x) : Good x := by
+  obtain ⟨a, rfl⟩ := h; exact good_ok a
 
 section total
 variable {tag : OvTag} (ht : Checked tag) {L R : IntTy} (hL : 1 ≤ L.bits) (hR : 1 ≤ R.bits) {l r : Int}
@@ -1334,7 +1341,7 @@ theorem isOverflow_isOk_unsigned (hu : (usualArith L R).signed = false) {op : Bi
 include ht
 
 theorem builtin_arith_defined {op : BinOp} (hop : op = .add ∨ op = .sub ∨ op = .mul) :
-    (checkedBin .builtin tag op (L, l) (R, r)).isDefined = true := by
+    Good (checkedBin .builtin tag op (L, l) (R, r)) := by
   rcases hop with e | e | e <;> subst e
   · rw [builtin_add_eq ht.ne_nat hL hR hl hr]; exact want_defined ht _ _
   · rw [builtin_sub_eq ht.ne_nat hL hR hl hr]; exact want_defined ht _ _
@@ -1342,7 +1349,7 @@ theorem builtin_arith_defined {op : BinOp} (hop : op = .add ∨ op = .sub ∨ op
 
 theorem portable_arith_defined {op : BinOp} (hop : op = .add ∨ op = .sub ∨ op = .mul)
     (hg : op = .mul → ¬ MulGuardExact L R) :
-    (checkedBin .portable tag op (L, l) (R, r)).isDefined = true := by
+    Good (checkedBin .portable tag op (L, l) (R, r)) := by
   by_cases hTs : (usualArith L R).signed = true
   · have hlT : (usualArith L R).InRange l := fits_left (fun h => by rw [hTs] at h; cases h) hl
     have hrT : (usualArith L R).InRange r := fits_right (fun h => by rw [hTs] at h; cases h) hr
@@ -1357,7 +1364,7 @@ theorem portable_arith_defined {op : BinOp} (hop : op = .add ∨ op = .sub ∨ o
 
 /-- division under a checked tag is defined for every type pair, mixed signedness included -/
 theorem div_defined (path : Path) (hr0 : r ≠ 0) :
-    (checkedBin path tag .div (L, l) (R, r)).isDefined = true := by
+    Good (checkedBin path tag .div (L, l) (R, r)) := by
   have h32 := usualArith_bits_ge L R
   have hT1 : 1 ≤ (usualArith L R).bits := by omega
   have hLT : usualArith L (usualArith L R) = usualArith L R := (usualArith_absorb L R).2.2.1
@@ -1388,7 +1395,7 @@ theorem div_defined (path : Path) (hr0 : r ≠ 0) :
       have hov : ¬(l = -(usualArith L R).max - 1 ∧ r = -1) := by
         intro ⟨h1, h2⟩; exact hov' ⟨hTs, by omega, h2⟩
       have hq := tdiv_inRange h32 hlT hrT hr0 hov
-      rw [cDiv_ev rfl hT1 hlT hrT hr0 hov' hq]; rfl
+      rw [cDiv_ev rfl hT1 hlT hrT hr0 hov' hq]; exact good_ok _
     · have hu : (usualArith L R).signed = false := by simpa using hTs
       exact isOk_defined (cDiv_unsigned_isOk rfl hu (wrap_ne_zero_right hR hr hr0))
 
@@ -1423,7 +1430,7 @@ theorem shl_neg_minus_one (hm : l = -1 ∧ j = (promote L).digits) :
   simp [h1, h2]
 
 theorem shl_defined (path : Path) (hz : ¬(l = 0 ∧ j ≥ (promote L).bits)) :
-    (checkedBin path tag .shl (L, l) (R, (j : Int))).isDefined = true := by
+    Good (checkedBin path tag .shl (L, l) (R, (j : Int))) := by
   by_cases hm : l = -1 ∧ j = (promote L).digits
   · have htag : (tag == OvTag.nat) = false := by simpa using ht.ne_nat
     simp only [checkedBin, htag, hasBuiltin_shl, binResultTy, Bool.false_eq_true, ite_false,
@@ -1436,11 +1443,11 @@ theorem shl_defined (path : Path) (hz : ¬(l = 0 ∧ j ≥ (promote L).bits)) :
 end total_shl
 
 theorem neg_defined {tag : OvTag} (ht : Checked tag) {L : IntTy} (hL : 1 ≤ L.bits) {l : Int}
-    (hl : L.InRange l) : (checkedNeg tag (L, l)).isDefined = true := by
+    (hl : L.InRange l) : Good (checkedNeg tag (L, l)) := by
   rw [checkedNeg_eq ht.ne_nat hL hl]; exact want_defined ht _ _
 
 theorem convert_defined {tag : OvTag} (ht : Checked tag) {S D : IntTy} (hS : 1 ≤ S.digits) (hD : 1 ≤ D.bits)
-    {v : Int} (hv : S.InRange v) : (checkedConvert tag D (S, v)).isDefined = true := by
+    {v : Int} (hv : S.InRange v) : Good (checkedConvert tag D (S, v)) := by
   rw [checkedConvert_eq ht.ne_nat hS hD hv]; exact want_defined ht _ _
 
 
